@@ -434,7 +434,7 @@ pub fn run(ctx: &Ctx, rep: &mut Report) {
     let mut part = 0usize;
     run_matrix(ctx, rep, &fixed_lists(), &hays, &mut part);
     // random lists / haystacks of the same shapes
-    let n = ctx.tier.pick(2, 40, 1500);
+    let n = ctx.tier.pick(2, 40, 10_000);
     let mut rng = Rng::new(ctx.seed).fork(0xC13);
     let mut lists = vec![];
     let mut rhays = vec![];
